@@ -707,7 +707,7 @@ var kindBlocks = []kindBlock{
 	}},
 }
 
-func genConfig(t *rapid.T) (hcl string, class string) {
+func genConfig(t *rapid.T, cmd string) (hcl string, class string) {
 	var b strings.Builder
 	nprom := 1
 	if rapid.IntRange(0, 4).Draw(t, "twoProms") == 0 {
@@ -734,7 +734,11 @@ func genConfig(t *rapid.T) (hcl string, class string) {
 		// some check-defining blocks say which entry states they apply to (the documented way to check unmodified
 		// rules under `pint ci` is state = ["any"]); blocks without match keep the "# all" marker rule{disable}
 		// "merge" looks for
-		switch rapid.IntRange(0, 5).Draw(t, fmt.Sprintf("blockState%d", bi)) {
+		hi := 5
+		if cmd == "ci" {
+			hi = 3 // under ci blocks without state skip unmodified rules: say more often which states are meant
+		}
+		switch rapid.IntRange(0, hi).Draw(t, fmt.Sprintf("blockState%d", bi)) {
 		case 0, 1:
 			b.WriteString("rule {\n  # matched\n  match {\n    state = [\"any\"]\n  }\n")
 		case 2:
@@ -811,11 +815,12 @@ func genFiles(t *rapid.T) ([]FileSpec, string) {
 }
 
 func genDoc(t *rapid.T) Case {
-	cfg, ccls := genConfig(t)
+	command := rapid.SampledFrom([]string{"lint", "lint", "ci", "ci", "ci", "watch", ""}).Draw(t, "command")
+	cfg, ccls := genConfig(t, command)
 	files, fcls := genFiles(t)
 	c := Case{Kind: "toggle", Files: files, Config: cfg, DB: defaultDB(), Fixtures: defaultFixtures(), Class: ccls + ";" + fcls}
 	// the command in the context and the change state of every file's rules
-	c.Command = rapid.SampledFrom([]string{"lint", "lint", "ci", "ci", "watch", ""}).Draw(t, "command")
+	c.Command = command
 	for i := range c.Files {
 		if !c.Files[i].Removed {
 			c.Files[i].State = rapid.SampledFrom([]string{"noop", "noop", "added", "modified", "moved"}).Draw(t, fmt.Sprintf("state%d", i))
@@ -879,7 +884,7 @@ func TestPropToggle(t *testing.T) {
 	known := vstat.KnownClasses(prop)
 	// Every generated document is tested against ALL (name, mechanism) pairs.  Once a pair has failed, rapid only
 	// shrinks the document, so the remaining executions run just that pair (keeps shrinking affordable).
-	var focus *[2]string
+	var focus *[3]string
 	rapid.Check(t, func(rt *rapid.T) {
 		doc := genDoc(rt)
 		rulePos := rapid.SampledFrom([]string{"first", "last", "merge"}).Draw(rt, "rulePos")
@@ -901,33 +906,54 @@ func TestPropToggle(t *testing.T) {
 		for r, n := range reporters(base.Problems) {
 			rec.Count("baseline_reporter:"+r, int64(n))
 		}
-		pairs := allPairs()
+		// (name, mechanism, position of the added rule{disable} block). Names a baseline rule{enable/disable}
+		// block mentions are tried at every position: the order of rule blocks must not matter (disable wins).
+		var pairs [][3]string
+		for _, p := range allPairs() {
+			switch {
+			case p[1] != mRuleDisable:
+				pairs = append(pairs, [3]string{p[0], p[1], ""})
+			case switchMentions(doc.Switches, p[0]):
+				for _, pos := range []string{"first", "last", "merge"} {
+					pairs = append(pairs, [3]string{p[0], p[1], pos})
+				}
+			default:
+				pairs = append(pairs, [3]string{p[0], p[1], rulePos})
+			}
+		}
 		if focus != nil {
-			pairs = [][2]string{*focus}
+			pairs = [][3]string{*focus}
 		}
 		for _, pair := range pairs {
 			c := doc
-			c.Name, c.Mechanism = pair[0], pair[1]
-			if c.Mechanism == mRuleDisable {
-				c.RulePos = rulePos
-			}
+			c.Name, c.Mechanism, c.RulePos = pair[0], pair[1], pair[2]
 			nontrivial, err := checkCase(c, srv, &base)
 			cls := c.Mechanism + " " + c.Name
+			key := cls + "\x00" + c.RulePos
 			if errors.Is(err, errInfra) {
 				rt.Fatalf("%v", err) // a rejected configuration or a crash: no recorded case = inconclusive
 			}
-			rec.Case(cls, nontrivial, cls+"\x00"+c.Command+"\x00"+baseConfig(c)+"\x00"+filesKey(c.Files), func() any { return sample(c, base.Problems) })
+			rec.Case(cls, nontrivial, key+"\x00"+c.Command+"\x00"+baseConfig(c)+"\x00"+filesKey(c.Files), func() any { return sample(c, base.Problems) })
 			if err != nil {
 				if id, ok := known[knownClass(c, err)]; ok {
 					rec.KnownHit(id, c)
 					continue
 				}
 				rec.Fail(c, err)
-				focus = &[2]string{c.Name, c.Mechanism}
+				focus = &[3]string{c.Name, c.Mechanism, c.RulePos}
 				rt.Fatalf("%v\n--- command %q, config ---\n%s\n--- files ---\n%s", err, c.Command, baseConfig(c), filesKey(c.Files))
 			}
 		}
 	})
+}
+
+func switchMentions(sw []RuleSwitch, name string) bool {
+	for _, rs := range sw {
+		if slices.Contains(rs.Enable, name) || slices.Contains(rs.Disable, name) {
+			return true
+		}
+	}
+	return false
 }
 
 func filesKey(fs []FileSpec) string {
